@@ -511,7 +511,7 @@ class Engine:
             return else_fn()
         if not ft and not ff:
             return None
-        if site in self.forced_sites:
+        if site in self.forced_sites or (self.frames and self.frames[-1].qualname in self.fork_functions):
             idx = self.oracle.choose(self, site, [c, znot(c)])
             return then_fn() if idx == 0 else else_fn()
         self.gstack.append((c, site))
@@ -629,6 +629,7 @@ class Engine:
             self.version += 1
 
     loop_contracts = {}
+    fork_functions = frozenset()
 
     def s_While(self, st):
         f = self.frames[-1]
